@@ -554,7 +554,7 @@ SUBCHECKS = [
         "seconds_ticks",
         oracle_ticks,
         strategy=strat_ticks,
-        budget={"quick": 400, "thorough": 20000},
+        budget={"quick": 1500, "thorough": 20000},
         rule="(ppq, mpq, times, dtype) sampled; non-trivial = numpy scalar/array input or non-default ppq/mpq",
         floors={"dtype:float64": 0.05, "dtype:int64": 0.05},
     ),
